@@ -23,7 +23,7 @@ def plan(tier):
                 'operations; after each call the frozen attributes of every object, the untouched '
                 'objects, and the single permitted change on the target are checked; a cell is '
                 '(operation form, attribute, index class, object kind, outcome)',
-        'min_monitor': {'calls_checked': 1500, 'successful_changes_checked': 100, 'failed_calls_checked': 500,
+        'min_monitor': {'beside_answers_compared': 300, 'calls_checked': 1500, 'successful_changes_checked': 100, 'failed_calls_checked': 500,
                         'calls_followed_by_a_committing_item': 150},
         'assumptions': ['names are written with type Uninterpreted Text String here; the name-type '
                         'round trip is C05\'s concern',
@@ -33,7 +33,7 @@ def plan(tier):
 
 def cases(tier, seed):
     n = 80 if tier == 'quick' else 800
-    return [{'hist': i} for i in range(n)]
+    return [{'hist': i} for i in range(n)] + [{'beside': i} for i in range(16 if tier == 'quick' else 160)]
 
 
 def snapshot(srv, uids):
@@ -88,7 +88,65 @@ def value_repr_for(name, value):
     return repr(rig.T.kid(t, 0x42000B)[2])
 
 
+def run_beside(ctx, case):
+    """Attribute operations while other clients are being served: three clients (different users and KMIP versions), each
+    on objects of its own, modify / delete / set attribute instances by index, by current value and by reference and read
+    them back after each change - from threads of their own, yields injected at executed lines of the package.  Nothing a
+    client does touches another client's objects, so every answer must be the answer the same script gets alone."""
+    from kv.monitors.concurrent import alone_vs_beside
+    rng = ctx.rng()
+    rig.install_clock(rig.VClock(step=0))
+    users = [(('alice', None), (1, 2)), (('bob', None), (2, 0)), (('carol', None), (1, 4)), (('dave', None), (1, 0)), (('erin', None), (2, 0))]
+    clients = rng.sample(users, 3)
+    A = E.AttributeType
+    with rig.scratch_dir() as d:
+        srv = rig.Server(d + '/db.sqlite')
+        try:
+            scripts, labels = [], []
+            for (u, g), v in clients:
+                o = store.register(srv, rng.choice(('sym', 'secret', 'cert')), u, rng, names=['%s-n%d' % (u, k) for k in range(3)],
+                                   groups=['%s-g%d' % (u, k) for k in range(3)], asi=[('%s-ns' % u, 'd%d' % k) for k in range(2)],
+                                   state='pre', real_keys=False)
+                if o is None:
+                    ctx.unsure('setup of a C15 beside-history failed')
+                    return
+                frames, labs = [], []
+                for j in range(rng.randrange(6, 14)):
+                    k = rng.randrange(6)
+                    if v >= (2, 0):
+                        if k == 0:
+                            op, lab = op_modify_attribute_20(o.uid, A.OBJECT_GROUP, '%s-new%d' % (u, j), '%s-g%d' % (u, rng.randrange(3)), True), 'modify/2.0'
+                        elif k == 1:
+                            op, lab = op_delete_attribute_20(o.uid, A.OBJECT_GROUP, '%s-g%d' % (u, rng.randrange(3)), True), 'delete/2.0-current'
+                        elif k == 2:
+                            op, lab = op_delete_attribute_20(o.uid, A.NAME, reference=True), 'delete/2.0-reference'
+                        else:
+                            op, lab = op_get_attributes(o.uid), 'read'
+                    else:
+                        if k == 0:
+                            op, lab = op_modify_attribute_1x(o.uid, rig.attr(A.NAME, name_value('%s-mod%d' % (u, j)), rng.randrange(4))), 'modify/1.x'
+                        elif k == 1:
+                            op, lab = op_modify_attribute_1x(o.uid, rig.attr(A.OBJECT_GROUP, '%s-newg%d' % (u, j), rng.randrange(4))), 'modify/1.x'
+                        elif k == 2:
+                            op, lab = op_delete_attribute_1x(o.uid, rng.choice(('Name', 'Object Group', 'Application Specific Information')), rng.randrange(4)), 'delete/1.x'
+                        else:
+                            op, lab = op_get_attributes(o.uid), 'read'
+                    try:
+                        frames.append(rig.encode_request(rig.build_request(v, [op]), v))
+                        labs.append(lab)
+                    except Exception:
+                        pass
+                scripts.append(((u, g), frames))
+                labels.append(labs)
+            ctx.cell('beside', '+'.join('%d.%d' % v for _, v in clients))
+            alone_vs_beside(ctx, d, srv, scripts, rng, 'beside', labels, name='kv-c15')
+        finally:
+            srv.close()
+
+
 def run_case(ctx, case):
+    if 'beside' in case:
+        return run_beside(ctx, case)
     rng = ctx.rng()
     rig.install_clock(rig.VClock(step=1))
     with rig.scratch_dir() as d:
